@@ -91,6 +91,30 @@ def check_model(ck, pm: PM):
                 ck.ob("X2", fq, "%s (%s element) invariant under area*k, step/k" % (fld, kind), where, key_equiv(kt, k0),
                       "area and step length may enter per-step state only through their product",
                       expected=lambda: key_str(k0)[:300], found=lambda: key_str(kt)[:300])
+    # X4 which branch a step takes may not depend on the size of the run: every numeric decision of the path must keep its
+    # truth value when area and amount are multiplied by lambda (its two sides scale by one common positive factor)
+    for c, d in pm.out.trace:
+        neg = False
+        while isinstance(c, tuple) and c and c[0] == "not":
+            c, neg = c[1], not neg
+        if not (isinstance(c, tuple) and len(c) == 3 and c[0] in ("lt", "le", "gt", "ge", "eq", "ne") and isinstance(c[1], Rat) and isinstance(c[2], Rat)):
+            continue
+        diff = c[1] - c[2]
+        sd = S(diff)
+        if sd == diff:
+            continue
+        ok = False
+        for mu in (lam, lam * lam):
+            if sd == mu * diff:
+                ok = True
+        ck.ob("X4", fq, "step decision %s %s %s does not depend on the size of the run" % (str(c[1])[:40], c[0], str(c[2])[:40]), where, ok,
+              "a test that compares a size-dependent quantity with a fixed threshold takes different branches for a run and its scaled twin",
+              expected=lambda: "lambda^n * (%s)" % str(diff)[:200], found=lambda: str(sd)[:200])
+        if prog_none:
+            td = Tr(diff)
+            okt = td == diff or td == kap * diff or td * kap == diff
+            ck.ob("X4", fq, "step decision %s %s %s is invariant under area*k, step/k" % (str(c[1])[:40], c[0], str(c[2])[:40]), where, okt,
+                  expected=lambda: str(diff)[:200], found=lambda: str(td)[:200])
     # X3 step-0 flux arguments
     s0 = step0(pm)
     bad = {A.id: "membrane area", m0.id: "feed amount", dta.id: "step length"}
